@@ -648,7 +648,15 @@ def _visited_walk_for(ctx, fn, cfg, lp, ev, c):
             if isinstance(l, ast.Name) and l.id == c and isinstance(op, (ast.GtE, ast.Gt)) and invariant_in_loop(r, loop):
                 if n.body and isinstance(n.body[-1], (ast.Break, ast.Return, ast.Raise)):
                     range_tests.append(n)
-    if not range_tests:
+    guard_range = False
+    for gt in guard_atoms(loop.test):
+        if isinstance(gt, ast.Compare) and len(gt.ops) == 1:
+            l, op, r = gt.left, gt.ops[0], gt.comparators[0]
+            if isinstance(l, ast.Name) and l.id == c and isinstance(op, ast.Lt) and invariant_in_loop(r, loop):
+                guard_range = True
+            if isinstance(r, ast.Name) and r.id == c and isinstance(op, ast.Gt) and invariant_in_loop(l, loop):
+                guard_range = True
+    if not range_tests and not guard_range:
         return False, "VISITED-WALK", f"cursor `{c}` indexes tables but no range exit (`{c} >= N` leaving the loop) exists"
     rt_ids = {cfg.nid(t) for t in range_tests}
     for n in body_nodes:
@@ -659,6 +667,8 @@ def _visited_walk_for(ctx, fn, cfg, lp, ev, c):
             if st is None:
                 continue
             nid = cfg.node_of[id(st)]
+            if guard_range and not _reassigned_before(cfg, lp, c, nid):
+                continue
             if not (dom.get(nid, set()) & rt_ids):
                 return False, "VISITED-WALK", f"subscript `{norm(n)}` at line {n.lineno} is not dominated by the range exit on `{c}`"
     # head membership test:  if c in X / X[c] -> leave loop, dominating the marks (per structure)
@@ -720,6 +730,22 @@ def _visited_walk_for(ctx, fn, cfg, lp, ev, c):
     if nback == 0:
         return None
     return True, "VISITED-WALK", f"cursor `{c}`, visited structure(s) {structures}, {nback} back-edge paths: range exit, mark and fresh-target test hold"
+
+
+def _reassigned_before(cfg, lp, c, nid):
+    """is cursor c reassigned on some path from the loop head to node nid (within one iteration)?"""
+    def stop(s_, lab, n_):
+        return s_ == nid or s_ == lp.head or s_ not in lp.body
+    for path, end, lab in cfg.paths(lp.head, stop):
+        if end != nid:
+            continue
+        for n, l in path:
+            st = cfg.nodes[n].ast
+            if cfg.nodes[n].kind == "stmt" and isinstance(st, (ast.Assign, ast.AugAssign)):
+                tg = st.targets if isinstance(st, ast.Assign) else [st.target]
+                if any(isinstance(t, ast.Name) and t.id == c for t in tg):
+                    return True
+    return False
 
 
 def schema_stream_parse(ctx, fn, cfg, lp, ev):
@@ -1268,8 +1294,19 @@ def _t3_side_condition(ctx, key, edges, sites):
         if isinstance(arg, ast.Name):
             for node in own_nodes(fn_a):
                 if isinstance(node, ast.Assign) and any(isinstance(t2, ast.Name) and t2.id == arg.id for t2 in node.targets) \
-                        and isinstance(node.value, ast.Call) and isinstance(node.value.func, ast.Name) and node.value.func.id == "open":
-                    opened = True
+                        and isinstance(node.value, ast.Call) and isinstance(node.value.func, ast.Name):
+                    if node.value.func.id == "open":
+                        opened = True
+                    else:
+                        r = ctx.prog.resolve(fn_a._module, node.value.func.id)
+                        if r and r[0] == "func":
+                            rets = [x for x in own_nodes(r[1]) if isinstance(x, ast.Return) and x.value is not None]
+                            if rets and all(isinstance(x.value, ast.Call) and norm(x.value.func) == "open" for x in rets):
+                                opened = True
+                            elif rets and all(isinstance(x.value, ast.Name) for x in rets):
+                                ds = [a for a in own_nodes(r[1]) if isinstance(a, ast.Assign) and norm(a.targets[0]) == rets[0].value.id]
+                                if ds and all(isinstance(a.value, ast.Call) and norm(a.value.func) == "open" for a in ds):
+                                    opened = True
         if guarded and opened:
             return True, ""
         return False, "cue-sheet recursion is no longer bounded: the text branch is not guarded by isinstance(file, str) or the recursive call does not pass an opened stream"
